@@ -1,8 +1,11 @@
-//! Attribution of rejected events to OPEN known findings: `sar` ("same as reference") tells whether the working tree of the
-//! crate under test returns, for the very same call, what the reference copy (/verif/refcrate: the tree on which the open
-//! findings were recorded) returns.  An open finding only matches events with sar = 1, so a change of the code that makes a
-//! different (or worse) wrong answer on inputs covered by a known finding is reported as a violation and not absorbed.
-//! The comparison is on the raw outputs (cell lists, f64 bits, panic or not); it judges nothing by itself.
+//! Attribution of rejected events to OPEN known findings: `sar` tells whether, on the very same call, the working tree of the
+//! crate under test does NOT DO WORSE than the reference copy (/verif/refcrate: the tree on which the open findings were
+//! recorded) on the clauses the findings are about: it covers every witness the reference covers, its full cells do not stick
+//! out further, its cells are not further away, its bounds are not smaller, it does not panic where the reference does not.
+//! An open finding only matches events with sar = 1, so a change of the code that gives a worse answer on inputs covered by a
+//! known finding is reported as a violation and not absorbed, while a change that keeps or improves the answer (flags,
+//! representation, extra cells within the stated slack, larger bounds) is still attributed to the finding when the old failure
+//! remains.  The comparison judges nothing by itself: an accepted event is accepted whatever sar says.
 use crate::util::guarded;
 use cdshealpix::nested::bmoc::BMOC;
 use cdshealpix_ref as rf;
@@ -37,4 +40,29 @@ pub fn fits9(r: f64, ds: u8, lon: f64, lat: f64) -> u8 {
   let cur = guarded(|| { let d = cdshealpix::best_starting_depth(r); let l = cdshealpix::nested::get_or_create(ds); (d, l.neighbours(l.hash(lon, lat), true).sorted_values_vec()) });
   let reff = guarded(|| { let d = rf::best_starting_depth(r); let l = rf::nested::get_or_create(ds); (d, l.neighbours(l.hash(lon, lat), true).sorted_values_vec()) });
   (cur == reff) as u8
+}
+
+// ---- reference results as decoded cell lists (the decoder of sc_bmoc does not depend on the crate's types)
+use crate::sc_bmoc::{decode_raw, C};
+fn rcells(b: &rf::nested::bmoc::BMOC) -> Vec<C> { b.entries.iter().map(|r| decode_raw(*r, b.get_depth_max())).collect() }
+pub fn cone_cells(depth: u8, dd: u8, lon: f64, lat: f64, r: f64) -> Option<Vec<C>> {
+  guarded(|| if dd == 0 { rf::nested::cone_coverage_approx(depth, lon, lat, r) } else { rf::nested::cone_coverage_approx_custom(depth, dd, lon, lat, r) }).map(|b| rcells(&b))
+}
+pub fn ellipse_cells(depth: u8, dd: u8, lon: f64, lat: f64, a: f64, b: f64, pa: f64) -> Option<Vec<C>> {
+  guarded(|| if dd == 0 { rf::nested::elliptical_cone_coverage(depth, lon, lat, a, b, pa) } else { rf::nested::elliptical_cone_coverage_custom(depth, dd, lon, lat, a, b, pa) }).map(|b| rcells(&b))
+}
+pub fn polygon_cells(depth: u8, vs: &[(f64, f64)], exact: bool) -> Option<Vec<C>> {
+  guarded(|| rf::nested::polygon_coverage(depth, vs, exact)).map(|b| rcells(&b))
+}
+pub fn covers(cells: &[C], w: &C) -> bool { cells.iter().any(|c| c.b == w.b && c.p.len() <= w.p.len() && c.p[..] == w.p[..c.p.len()]) }
+/// bounds not smaller than the reference's
+pub fn c2v_nw(depth: u8, lon: f64, lat: f64, b: Option<f64>) -> u8 {
+  match (b, guarded(|| rf::largest_center_to_vertex_distance(depth, lon, lat))) { (Some(x), Some(y)) => (x >= y) as u8, (None, None) => 1, (Some(_), None) => 1, (None, Some(_)) => 0 }
+}
+pub fn c2v_radius_nw(depth: u8, from: u8, lon: f64, lat: f64, r: f64, b1: Option<f64>, arr: &Option<Box<[f64]>>) -> u8 {
+  let r1 = guarded(|| rf::largest_center_to_vertex_distance_with_radius(depth, lon, lat, r));
+  let ra = guarded(|| rf::largest_center_to_vertex_distances_with_radius(from, depth + 1, lon, lat, r));
+  let s = match (b1, r1) { (Some(x), Some(y)) => x >= y, (None, Some(_)) => false, _ => true };
+  let a = match (arr, &ra) { (Some(x), Some(y)) => x.len() == y.len() && x.iter().zip(y.iter()).all(|(p, q)| p >= q), (None, Some(_)) => false, _ => true };
+  (s && a) as u8
 }
